@@ -33,7 +33,7 @@ func suiteC11(s *Suite, rng *Rng, tier string) {
 		nScripts = 200
 	}
 	keys := []*KeyPair{makeKey(256, 0, 5, rng, true), makeKey(1024, 0, 5, rng, true)}
-	ops := []string{"prepare", "revokeOther", "revokeSelf", "update", "prove", "prove", "update", "prepare"}
+	ops := []string{"prepare", "revokeOther", "revokeSelf", "update", "prove", "prove", "update", "prepare", "resign"}
 	fixed := [][]string{
 		{"prepare", "revokeOther", "update", "prove"},
 		{"prepare", "prove", "prove"},
@@ -41,6 +41,9 @@ func suiteC11(s *Suite, rng *Rng, tier string) {
 		{"revokeSelf", "update", "prove"},
 		{"prepare", "revokeOther", "revokeOther", "update", "prepare", "prove"},
 		{"prepare", "revokeOther", "update", "revokeOther", "update", "prove", "prove"},
+		{"prepare", "resign", "update", "prove"},
+		{"prepare", "resign", "update", "prepare", "prove", "prove"},
+		{"revokeOther", "update", "prepare", "resign", "update", "prove"},
 	}
 	for sc := 0; sc < nScripts; sc++ {
 		kp := keys[0]
@@ -87,6 +90,11 @@ func suiteC11(s *Suite, rng *Rng, tier string) {
 				if err := cred.NonrevPrepareCache(); err != nil {
 					s.Violate("C11:prepare-failed", "NonrevPrepareCache failed: "+err.Error(), L{script})
 				}
+			case "resign":
+				// the issuer signs the unchanged accumulator again at a later time (nothing was revoked)
+				cur := *h.accs[len(h.accs)-1]
+				cur.Time += 3600
+				h.accs[len(h.accs)-1] = &cur
 			case "revokeOther":
 				h.revoke(nextPrime(rng.Bits(100), 1))
 			case "revokeSelf":
@@ -97,6 +105,19 @@ func suiteC11(s *Suite, rng *Rng, tier string) {
 			case "update":
 				our := int(w.SignedAccumulator.Accumulator.Index)
 				last := len(h.accs) - 1
+				if last == our && h.accs[last].Time > w.SignedAccumulator.Accumulator.Time && !selfRevoked {
+					u, err := revocation.NewUpdate(kp.Sk, h.accs[last], nil)
+					if err != nil {
+						panic(err)
+					}
+					u.SignedAccumulator.Accumulator = nil
+					if err := w.Update(pk, u); err != nil {
+						s.Violate("C11:update-failed", "update to a re-signed accumulator failed: "+err.Error(), L{script})
+					}
+					if w.SignedAccumulator.Accumulator == nil || w.SignedAccumulator.Accumulator.Time != h.accs[last].Time {
+						s.Violate("C11:resigned-accumulator-not-adopted", "witness did not adopt the re-signed accumulator", L{script})
+					}
+				}
 				if last > our {
 					err := w.Update(pk, h.window(our+1, last))
 					if selfRevoked && err != revocation.ErrorRevoked {
